@@ -21,10 +21,12 @@ vars == <<l, dict, opts, ws, cnt, memo>>
 On(p) == Prop = "ALL" \/ Prop = p
 (* clauses about tokenization results are also clauses of C08 while a user lexicon is loaded
    (candidates and optimum as for the extended system lexicon) and of C06 once ids have been
-   remapped (same tokens, costs between mapped ids) *)
+   remapped (same tokens, costs between mapped ids), and of C05 once the dictionary in use
+   has been written and read back (the reloaded dictionary behaves identically) *)
 OnTok(p) == \/ On(p)
             \/ (Prop = "C08" /\ Len(dict.user) > 0)
             \/ (Prop = "C06" /\ (dict.pl # IdPerm(dict.nl) \/ dict.pr # IdPerm(dict.nr)))
+            \/ (Prop = "C05" /\ "reloaded" \in DOMAIN dict)
 AT(p, n, x) == IF ~OnTok(p) THEN TRUE ELSE IF x THEN TRUE ELSE Print(<<"FAILED-CLAUSE", Prop, n, l>>, FALSE)
 (* an asserted clause; a failing one is named on stdout (single path, so printed once) *)
 A(p, n, x) == IF ~On(p) THEN TRUE ELSE IF x THEN TRUE ELSE Print(<<"FAILED-CLAUSE", p, n, l>>, FALSE)
@@ -92,7 +94,9 @@ CInit == /\ Is("cinit")
 (* documented use: after a tokenize of the current sentence (ws[w].tk); otherwise the
    statement of C13 says nothing and the abstract counter is re-synchronised *)
 CUpd == /\ Is("cupd")
-        /\ LET c == cnt[E.w]
+        /\ A("C13", "one-count-per-connection-id", Len(E.lc) = dict.nl /\ Len(E.rc) = dict.nr)
+        /\ IF Len(E.lc) # dict.nl \/ Len(E.rc) # dict.nr THEN UNCHANGED cnt ELSE
+           LET c == cnt[E.w]
                got == [on |-> TRUE, lc |-> [i \in 0..(dict.nl - 1) |-> E.lc[i + 1]],
                                     rc |-> [i \in 0..(dict.nr - 1) |-> E.rc[i + 1]]]
            IN IF c.on /\ ws[E.w].tk
